@@ -8,7 +8,9 @@ RUNNER = ("RunTransform", "run_C12")
 COQ_TARGETS = ["theories/RunTransform.vo"]
 PER_CASE_TIMEOUT = 10.0
 AUTHORITY = ("C12_cover (coq/props/C12.v): for EVERY width the coefficients 1,2,..,2^(n-2), K-2^(n-1)+1 reach exactly 0..K; "
-             "the runner checks the SDK's coefficients, constant and registered binaries against the model for the SDK's own new ids")
+             "the runner checks the SDK's coefficients, constant and registered binaries against the model for the SDK's own new ids; "
+             "C12_path_eval / C12_path_cover: after log_encode + substitute, evaluation at any bit assignment reports x in "
+             "[ceil l, floor u] with the original objective / constraints at that x, and every integer of the range is reached")
 RULE = ("instances with an integer variable [l,u] among other variables (non-contiguous ids): every width 1..64 (quick) / 1..4096 "
         "(thorough) at random offsets, the same widths with fractional outward slack on both sides (total slack below / at / above 1), "
         "random |l|,|u| <= 2^20, fractional bounds, sampled widths up to 2^40; every error condition: "
